@@ -53,6 +53,7 @@ type Spec struct {
 	Consts []ConstSpec `json:"consts"`
 	Preds  []PredSpec  `json:"preds"`
 	Skels  []SkelSpec  `json:"skels"`
+	Flows  []FlowSpec  `json:"flows"` // control skeletons, see flow.go
 }
 
 var fset = token.NewFileSet()
@@ -678,6 +679,13 @@ func genModule(repo string, spec *Spec, outDir string) {
 			genSkel(repo, &spec.Skels[i], &cs)
 		}
 		cs.WriteString("end Skel\n\n")
+	}
+	if len(spec.Flows) > 0 {
+		cs.WriteString("namespace Flow\n")
+		for i := range spec.Flows {
+			genFlow(repo, &spec.Flows[i], &cs)
+		}
+		cs.WriteString("end Flow\n\n")
 	}
 	cs.WriteString("end Gen\n")
 	writeIfChanged(filepath.Join(outDir, spec.Module+".lean"), cs.String())
